@@ -57,6 +57,15 @@ const E_M: u32 = 3;
 const E_A: u32 = 4;
 const E_ABSENT: u32 = 0x99;
 
+fn node_spec_sized(attr_size: Option<usize>) -> NodeSpec {
+    let mut n = node_spec();
+    if let Some(sz) = attr_size {
+        // the attribute of endpoint 1 / cluster A becomes an octet string of that size
+        n.endpoints[1].clusters[0].attrs[0].value = Val::Bytes((0..sz).map(|i| (i % 251) as u8).collect());
+    }
+    n
+}
+
 fn node_spec() -> NodeSpec {
     let ev = |id: u32, need: Access| EventSpec { id, access: Access::READ | need };
     let all = || vec![ev(E_V, Access::NEED_VIEW), ev(E_O, Access::NEED_OPERATE), ev(E_M, Access::NEED_MANAGE), ev(E_A, Access::NEED_ADMIN)];
@@ -106,6 +115,8 @@ struct Scn {
     req: Requester,
     paths: Vec<Path>,
     attr_paths: Vec<Path>,
+    /// the attribute of endpoint 1 / cluster A is an octet string of this size (None: a small integer)
+    attr_size: Option<usize>,
     fabric_filtered: bool,
     event_min: Option<u64>,
     subscribe: bool,
@@ -119,6 +130,7 @@ fn scn_json(s: &Scn) -> Value {
         "events_world": true, "level": s.level, "ep1_only": s.ep1_only, "requester": format!("{:?}", s.req),
         "paths": s.paths.iter().map(|p| json!([p.ep, p.cl, p.leaf])).collect::<Vec<_>>(),
         "attr_paths": s.attr_paths.iter().map(|p| json!([p.ep, p.cl, p.leaf])).collect::<Vec<_>>(),
+        "attr_size": s.attr_size,
         "fabric_filtered": s.fabric_filtered, "event_min": s.event_min, "subscribe": s.subscribe,
         "before": em(&s.before), "after": s.after.iter().map(em).collect::<Vec<_>>(),
     })
@@ -139,6 +151,7 @@ pub fn scn_from(v: &Value) -> Option<Scn> {
         },
         paths: v["paths"].as_array()?.iter().map(path).collect(),
         attr_paths: v["attr_paths"].as_array()?.iter().map(path).collect(),
+        attr_size: v["attr_size"].as_u64().map(|x| x as usize),
         fabric_filtered: v["fabric_filtered"].as_bool()?,
         event_min: v["event_min"].as_u64(),
         subscribe: v["subscribe"].as_bool()?,
@@ -234,7 +247,7 @@ fn build(s: &Scn) -> World {
     }
     acl(2, NODE_A2, Privilege::VIEW, &[]);
 
-    let dm = TestDm::new(node_spec());
+    let dm = TestDm::new(node_spec_sized(s.attr_size));
     let answer: Rc<RefCell<Option<Answer>>> = Rc::new(RefCell::new(None));
     let sub = Rc::new(RefCell::new(Sub::default()));
     let h = Owned::new(SubHandler { sub: sub.clone() });
@@ -525,6 +538,11 @@ pub fn run_scn(s: &Scn) -> Result<Outcome, String> {
         // the attribute part of the same answer (each selected attribute exactly once)
         for ap in &s.attr_paths {
             let n = ans.items.iter().filter(|i| matches!(i, Item::Data { ep, cl, attr, .. } if Some(*ep) == ap.ep && Some(*cl) == ap.cl && Some(*attr) == ap.leaf)).count();
+            // a value that fits no message at all is answered with 'resource exhausted' in its place
+            let exhausted = ans.items.iter().filter(|i| matches!(i, Item::Status { ep, cl, leaf, status } if *ep == ap.ep && *cl == ap.cl && *leaf == ap.leaf && *status == 0x89)).count();
+            if n == 0 && exhausted == 1 && s.attr_size.map(|z| z >= 1100).unwrap_or(false) {
+                continue;
+            }
             if n != 1 && level_of(s, ap.ep.unwrap_or(0)) >= 1 {
                 v.push((format!("{}:attribute-of-a-mixed-request-{}", tag, if n == 0 { "missing" } else { "repeated" }), format!("{:?}: {} times", ap, n)));
             }
@@ -649,10 +667,25 @@ pub fn catalog(tier: Tier) -> Vec<Scn> {
                                 continue;
                             }
                             let attr_paths = if plabel == "endpoint-1" { vec![Path::new(Some(1), Some(CL_A), Some(1))] } else { vec![] };
-                            v.push(Scn { level, ep1_only, req, paths: paths.clone(), attr_paths, fabric_filtered, event_min, subscribe, before: before.clone(), after: if subscribe { after.clone() } else { vec![] } });
+                            v.push(Scn { level, ep1_only, req, paths: paths.clone(), attr_paths, attr_size: None, fabric_filtered, event_min, subscribe, before: before.clone(), after: if subscribe { after.clone() } else { vec![] } });
                         }
                     }
                 }
+            }
+        }
+    }
+    // answers that carry attributes *and* events: the attribute part ends at every distance from the end of a
+    // message (octet string of every size), followed by no event / one small event / events that need a
+    // further message
+    let e = |size: usize| Emit { ep: 1, cl: CL_A, ev: E_V, prio: 1, fab: None, size };
+    let step = if tier == Tier::Quick { 1 } else { 1 };
+    for size in (0..=1300usize).step_by(step) {
+        for (k, before) in [vec![], vec![e(4)], vec![e(700), e(700)]].into_iter().enumerate() {
+            for subscribe in [false, true] {
+                if (k == 2 || subscribe) && tier == Tier::Quick && !(size >= 900 && size <= 1250) {
+                    continue;
+                }
+                v.push(Scn { level: 4, ep1_only: false, req: Requester::Case1, paths: vec![Path::new(None, None, None)], attr_paths: vec![Path::new(Some(1), Some(CL_A), Some(1))], attr_size: Some(size), fabric_filtered: false, event_min: None, subscribe, before: before.clone(), after: if subscribe { vec![vec![e(4)], vec![]] } else { vec![] } });
             }
         }
     }
@@ -702,7 +735,7 @@ pub fn is_c06(sig: &str) -> bool {
     sig.starts_with("event-disclosed") || sig.contains("status") || sig.starts_with("request-refused") || sig.starts_with("no-answer")
 }
 pub fn is_c14(sig: &str) -> bool {
-    (sig.starts_with("event-missing") && !sig.ends_with(":report-1") && !sig.ends_with(":report-2")) || sig.starts_with("event-delivered-twice") || sig.starts_with("event-modified") || sig.starts_with("events-out-of-order") || sig.starts_with("message-larger") || sig.starts_with("more-chunks") || sig.starts_with("empty-chunk") || sig.starts_with("attribute-of-a-mixed-request")
+    (sig.starts_with("event-missing") && !sig.ends_with(":report-1") && !sig.ends_with(":report-2")) || sig.starts_with("event-delivered-twice") || sig.starts_with("event-modified") || sig.starts_with("events-out-of-order") || sig.starts_with("message-larger") || sig.starts_with("more-chunks") || sig.starts_with("empty-chunk") || sig.starts_with("attribute-of-a-mixed-request") || sig.starts_with("no-answer")
 }
 pub fn is_c13(sig: &str) -> bool {
     sig.starts_with("event-missing") && (sig.ends_with(":report-1") || sig.ends_with(":report-2"))
